@@ -716,3 +716,20 @@ def gen_deps_pair(rnd, sid, wf_reads):
                     drop_wf_after_first=not wf_reads, partial_targets=0.5)
     b = a.transformed(sid + '_decl', engine.inline_deps, manifest_on_sethidden=True)
     return a, b
+
+# ------------------------------------------------------------------ C20: progress counters from the Status calls
+def oracle_counters(h, st, b, prev=None):
+    """finished <= started <= total at every call, every started command reported finished, finished = total on success"""
+    total = started = finished = 0; bad = []
+    for ev in b.events:
+        if ev[0] != 'st': continue
+        k = ev[1]
+        if k == 'added': total += 1
+        elif k == 'removed': total -= 1
+        elif k == 'started': started += 1
+        elif k == 'finished': finished += 1
+        if not (0 <= finished <= started <= total) and k in ('started', 'finished', 'removed'):
+            bad.append('after Status call %s %s: finished=%d started=%d total=%d' % (k, engine.uh(ev[2]) if len(ev) > 2 else '', finished, started, total)); break
+    if b.exit == 0 and not b.uptodate and finished != total: bad.append('successful build ended with finished=%d total=%d' % (finished, total))
+    if b.exit not in (130, None) and started != finished: bad.append('started %d commands but reported %d finished' % (started, finished))
+    return bad or None
